@@ -36,6 +36,11 @@ pub enum Op {
     ConSum,
     /// deviation: prover appends the first string, the verifier the second ("" = nothing)
     MsgDev(String, String),
+    /// deviation: the prover appends, as application data labelled like a commitment, the encoding of
+    /// a point which the verifier instead presents as an additional (unreferenced) commitment
+    MsgPointV,
+    /// both roles append the point's encoding as application data (the undeviated statement)
+    MsgPointVHonest,
     /// allocate_multiplier
     AllocMul,
     /// allocate (single variable)
@@ -397,6 +402,30 @@ pub fn run_ops<G: AffineRepr, CS: RoleCS<G>>(cs: &mut CS, ops: &[Op], shr: &Rc<R
                     }
                 }
             }
+            Op::MsgPointV => {
+                let extra = sh.extra_commitment.expect("extra commitment point");
+                if prover {
+                    let mut bytes = Vec::new();
+                    ark_serialize::CanonicalSerialize::serialize_uncompressed(&extra, &mut bytes).unwrap();
+                    cs.transcript().append_message(b"V", &bytes);
+                } else {
+                    sh.verifier_commitments.push(extra);
+                    let saved = (sh.tape.clone(), sh.pos);
+                    sh.tape.insert(sh.pos, FOf::<G>::zero());
+                    sh.tape.insert(sh.pos, FOf::<G>::zero());
+                    let var = cs.role_commit(sh, false);
+                    sh.tape = saved.0;
+                    sh.pos = saved.1;
+                    sh.vars.pop();
+                    sh.handles.push(show_var(&var));
+                }
+            }
+            Op::MsgPointVHonest => {
+                let extra = sh.extra_commitment.expect("extra commitment point");
+                let mut bytes = Vec::new();
+                ark_serialize::CanonicalSerialize::serialize_uncompressed(&extra, &mut bytes).unwrap();
+                cs.transcript().append_message(b"V", &bytes);
+            }
             Op::MsgDev(a, b) => {
                 let s = if prover { a } else { b };
                 if !s.is_empty() {
@@ -489,7 +518,8 @@ pub fn run_ops<G: AffineRepr, CS: RoleCS<G>>(cs: &mut CS, ops: &[Op], shr: &Rc<R
                 let r = r0 + gr;
                 let o = l * r + go;
                 let (lv, rv, ov) =
-                    cs.multiply(lca + LinearCombination::from(ca), lcb + LinearCombination::from(cb));
+                    // the constant comes last in the left operand and first in the right one
+                    cs.multiply(lca + LinearCombination::from(ca), LinearCombination::from(cb) + lcb);
                 sh.handles.push(format!("{},{},{}", show_var(&lv), show_var(&rv), show_var(&ov)));
                 sh.gates.push((l, r, o));
                 sh.set_var(lv, l);
